@@ -31,7 +31,7 @@ theorem frame_run (c : Cfg) (q : Nat) (ops : List Op) (s : St) (h : Inv s) (hq :
 /-- **restore**: when a ball ends and the next ball starts (next player, next ball of the same player, or an extra
 ball), the counter presents exactly the state object stored in the dictionary of the player who is now up — which by
 `frame_run` is what it presented at the end of that player's previous ball. -/
-theorem restore (c : Cfg) (s : St) (h : Inv s) (hne : s.players ≠ []) (b : Val)
+theorem restore (c : Cfg) (s : St) (hne : s.players ≠ []) (b : Val)
     (hg : (step c s .drain).1.players ≠ [])
     (hb : get (varsOf s (step c s .drain).1.cur) stateKey = some b) :
     view (step c s .drain).1 = some b := by
@@ -54,15 +54,15 @@ theorem restore (c : Cfg) (s : St) (h : Inv s) (hne : s.players ≠ []) (b : Val
   simp only [step, if_neg hne] at hg hb ⊢
   split
   · rename_i hx
-    simp only [hx, if_true] at hb
+    rw [if_pos hx] at hb
     rw [modeStart_cur, setOn_cur] at hb
     exact key _ _ _ _ (by decide) hb
   · rename_i hx
-    simp only [hx, if_false] at hb hg
+    rw [if_neg hx] at hb hg
     split
-    · rename_i hy; simp [hy] at hg
+    · rename_i hy; rw [if_pos hy] at hg; exact absurd rfl hg
     · rename_i hy
-      simp only [hy, if_false] at hb
+      rw [if_neg hy] at hb
       rw [turnStart_cur] at hb
       unfold turnStart
       simp only []
